@@ -192,6 +192,10 @@ func skylightBuild(base string, seed uint64, thorough bool) (*skylightDirs, erro
 	os.Symlink("/etc/passwd", filepath.Join(a, "issuer", "passwd"))
 	os.Symlink(filepath.Join(base, "secret.txt"), filepath.Join(a, "tile", "0", "999"))
 	os.Symlink("..", filepath.Join(a, "tile", "up"))
+	// a directory reached through a symbolic link that stays inside the directory (an operator moving tile/0 aside):
+	// files below it may be served, the directory itself must stay hidden like any other directory
+	os.Symlink("0", filepath.Join(a, "tile", "link0"))
+	os.Symlink("tile", filepath.Join(a, "tilelink"))
 	os.WriteFile(filepath.Join(a, ".hidden"), []byte("dot file in the log directory\n"), 0o644)
 	os.WriteFile(filepath.Join(a, "tile", "0", ".000123456"), []byte("temp file of a killed upload\n"), 0o644)
 	os.WriteFile(filepath.Join(a, "issuer", "index.html"), []byte("<html>not an issuer</html>\n"), 0o644)
@@ -403,7 +407,7 @@ func (w *skylightWorld) request(variant int, host, target string, layout *skylig
 	planted := false
 	for _, sg := range strings.FieldsFunc(target, func(r rune) bool { return r == '/' }) {
 		switch sg {
-		case "escape", "999", "passwd", "up", "leak":
+		case "escape", "999", "passwd", "up", "leak", "link0", "tilelink":
 			planted = true
 		}
 	}
@@ -592,6 +596,7 @@ func (w *skylightWorld) hostile(e *skylightEntry) []string {
 	}
 	common := []string{
 		"", "tile", "tile/", "tile/0", "tile/0/", "tile/data", "tile/data/", "issuer", "issuer/", "checkpoint/", "checkpoint/x", "log.v3.json/",
+		"tile/up", "tile/up/", "tile/up/tile", "tile/up/tile/", "tile/up/issuer/", "tile/link0", "tile/link0/", "tile/link0/000", "tilelink", "tilelink/", "tilelink/0/", "tilelink/0/000", "tilelink/link0/",
 		"../secret.txt", "tile/../../secret.txt", "tile/escape", "tile/0/999", "tile/up/checkpoint", "tile/up/tile/0/000", "issuer/passwd", "issuer/index.html",
 		".hidden", "tile/0/.000123456", "_roots.pem", "staging", "./checkpoint", "tile/./0/000", "tile//0/000", "/checkpoint", "tile/0/000/", "tile/0/000/.",
 		"tile/0/000/..", "tile/0/../0/000", "tile/0/000/x", "checkpoint/x/y", "log.v3.json/x", "issuer/index.html/x", "..", "../", "tile/index.html", "index.html", "tile/0/index.html", "TILE/0/000", "Checkpoint", "checkpoint.", "tile/0/000.p", "tile/0/000.p/",
